@@ -211,20 +211,27 @@ package implements
 //@   loop 2 invariant forall j int :: 0 <= j && j < $i && indom(pkgToInterface, $seq[j].Path()) ==> contains(packagesToScan, $seq[j])
 //@   loop 3 invariant forall k int :: 0 <= k && k < len(result) ==> result[k] != nil && fresh(result[k])
 //@   loop 3 invariant forall p string, n string :: hasIfaceModel(result, p, n) <==> (exists k int :: 0 <= k && k < $i && packagesToScan[k].Path() == p && tmHas(pkgToInterface, p, n) && declaresIface(packagesToScan[k], n))
+// a type model is loaded for name n exactly if n is asked for and the package declares a defined (named) type n
+//@ macro func declaresNamed(pkg *types.Package, n string) bool = contains(pkg.Scope().Names(), n) && pkg.Scope().Lookup(n) != nil && typeis(pkg.Scope().Lookup(n), *types.TypeName) && typeis(pkg.Scope().Lookup(n).Type(), *types.Named)
+//@ pure func hasTypeModel(l []*TypeModel, n string) bool = exists k int :: 0 <= k && k < len(l) && l[k].Name == n
 //@ func findTypesInPackage
-//@   props C10
+//@   props C05 C10
 //@   requires pkg != nil
 //@   assigns nothing
-//@   ensures forall k int :: 0 <= k && k < len(result) ==> result[k] != nil && fresh(result[k]) && uniqueNames(result[k])
+//@   ensures forall k int :: 0 <= k && k < len(result) ==> result[k] != nil && fresh(result[k]) && uniqueNames(result[k]) && result[k].Package == pkg.Path()
+//@   ensures forall n string :: hasTypeModel(result, n) <==> (targetTypes[n] && declaresNamed(pkg, n))
 //@   loop 1 frame
-//@   loop 1 invariant forall k int :: 0 <= k && k < len(result) ==> result[k] != nil && fresh(result[k]) && uniqueNames(result[k])
+//@   loop 1 invariant forall k int :: 0 <= k && k < len(result) ==> result[k] != nil && fresh(result[k]) && uniqueNames(result[k]) && result[k].Package == pkg.Path()
+//@   loop 1 invariant forall n string :: hasTypeModel(result, n) <==> (targetTypes[n] && pkg.Scope().Lookup(n) != nil && typeis(pkg.Scope().Lookup(n), *types.TypeName) && typeis(pkg.Scope().Lookup(n).Type(), *types.Named) && (exists j int :: 0 <= j && j < $i && $seq[j] == n))
 //@ func LoadTypes
-//@   props C10
+//@   props C05 C10
 //@   requires pass.Pkg != nil
 //@   assigns nothing
 //@   ensures forall k int :: 0 <= k && k < len(result) ==> result[k] != nil && fresh(result[k]) && uniqueNames(result[k])
+//@   ensures forall n string :: hasTypeModel(result, n) <==> ((exists q int :: 0 <= q && q < len(queries) && queries[q].TypeName == n) && declaresNamed(pass.Pkg, n))
 //@   loop 1 frame
 //@   loop 1 invariant targetTypes != nil && fresh(targetTypes)
+//@   loop 1 invariant forall n string :: targetTypes[n] <==> (exists q int :: 0 <= q && q < $i && queries[q].TypeName == n)
 
 //@ func FindMissingMethods
 //@   props C05 C17 C10
